@@ -59,17 +59,21 @@ def _run_one(args):
       return v['name'], 'fail', 'behaviour-preserving twin reported by %s' % rules
     return v['name'], 'ok', 'silent'
   want = v['rule'] if isinstance(v['rule'], (list, tuple)) else [v['rule']]
-  if any(b[0] in want for b in baseline):
+  if not any(r in rules for r in want) and any(b[0] in want for b in baseline):
     return v['name'], 'skipped', 'rule already violated on the current tree'
   if not any(r in rules for r in want):
     return v['name'], 'fail', 'expected %s, reported %s' % (want, rules)
   return v['name'], 'ok', 'reported by %s' % rules
 
 
-def run_for(prop, jobs=None, baseline=()):
+def run_for(prop, jobs=None, baseline=None):
   variants = load_variants(prop)
   if not variants:
     return {'variants': 0}
+  if baseline is None:
+    from sa import check  # pylint: disable=g-import-not-at-top
+    _, rep = check.run_property(prop, 'quick', write=False)
+    baseline = [(v['rule'], v['key']) for v in rep.violations]
   jobs = jobs or min(16, os.cpu_count() or 4)
   results = []
   with concurrent.futures.ProcessPoolExecutor(max_workers=jobs) as ex:
